@@ -114,6 +114,14 @@ def native_replay(prop, repo, payload, out_path):
     return res
 
 
+def _count_backends(results):
+    out = {}
+    for r in results:
+        for o in r["obligations"]:
+            out[o["backend"]] = out.get(o["backend"], 0) + 1
+    return out
+
+
 def finish(prop, tier, seed, level, results, t_start, repo, functions_under_contract, explanation,
            trusted_base, assumptions, extra_cov=None, checker_cmd=None):
     """aggregate, print verdict lines, write evidence, return exit code"""
@@ -154,6 +162,11 @@ def finish(prop, tier, seed, level, results, t_start, repo, functions_under_cont
     # known findings / violations
     violations = []
     matched_findings = {}
+    for r, ob in list(refuted):
+        if ob["name"].startswith("model:"):
+            # the assumed dependency contracts disagree with the real dependency: defect of the checker, not of rockit
+            crashes.append((r["task"], "dependency-contract validation failed: %s (%s)" % (ob["name"], ob.get("detail"))))
+            refuted.remove((r, ob))
     for r, ob in refuted:
         hit = None
         for kf in known:
@@ -234,8 +247,7 @@ def finish(prop, tier, seed, level, results, t_start, repo, functions_under_cont
         distinct_nontrivial=len({ob["name"] for r in results for ob in r["obligations"]}),
         rule="one case = one named proof obligation generated from the current source of /repo; distinct = distinct obligation names",
         samples=samples,
-        backends={"z3": sum(1 for r in results for o in r["obligations"] if o["backend"] == "z3"),
-                  "structural": sum(1 for r in results for o in r["obligations"] if o["backend"] != "z3")},
+        backends=_count_backends(results),
         solver_time_s=round(solver_time, 3),
         functions_under_contract=functions_under_contract,
         per_task=per_task,
